@@ -98,27 +98,28 @@ type openConn struct {
 }
 
 type world struct {
-	c         *Case
-	forceSync bool
-	mu        sync.Mutex
-	events    []event
-	tasks     []*task
-	regs      []*reg
-	rounds    []*roundObs
-	calls     []callObs
-	nextPid   int
-	round     int
-	inIdle    bool
-	open      *openConn
-	f02a      bool // an asynchronously resolved non-null field failed / was null (F-02a territory)
-	anomalies []string
-	aux       sync.WaitGroup
-	invoked   int
-	internal  int // chain/join goroutines inferred
-	invs      []string
-	pumpStop  chan struct{}
-	pumpDone  chan struct{}
-	pumped    int
+	c            *Case
+	forceSync    bool
+	mu           sync.Mutex
+	events       []event
+	tasks        []*task
+	regs         []*reg
+	rounds       []*roundObs
+	calls        []callObs
+	nextPid      int
+	round        int
+	inIdle       bool
+	open         *openConn
+	asyncNonNull bool // some non-null field was resolved asynchronously
+	f02a         bool // an asynchronously resolved non-null field failed / was null (F-02a territory)
+	anomalies    []string
+	aux          sync.WaitGroup
+	invoked      int
+	internal     int // chain/join goroutines inferred
+	invs         []string
+	pumpStop     chan struct{}
+	pumpDone     chan struct{}
+	pumped       int
 }
 
 func worldOf(ctx context.Context) *world {
@@ -325,6 +326,9 @@ func resolve(kind byte) func(graphql.FieldContext) (interface{}, error) {
 			}
 		}
 		w.invs = append(w.invs, key+":"+sp.Mode+":"+sp.Out+":"+sp.Gate)
+		if sp.Mode != "sync" && (kind == 'n' || kind == 'p') {
+			w.asyncNonNull = true
+		}
 		if sp.Mode != "sync" && (kind == 'n' || kind == 'p') && sp.Out != "val" {
 			w.f02a = true
 		}
